@@ -150,6 +150,6 @@ fn dispatch(case: &Case, obs: &mut Obs) -> PropResult {
 pub fn run(ctx: &mut Ctx) {
 	ctx.rule = "mapping sets with 2..4 namespaces x every permutation of the namespaces (enumerated per case), compared with a reference reorder; inverse and identity laws; failure required when the new first namespace lacks a class/field/method name or re-keying collides. Non-trivial = a non-identity permutation whose new first namespace renames a class that a member descriptor mentions; distinct by hash of the serialised case".into();
 	ctx.assume("class names of one namespace are injective in the stratum that checks the round-trip identity (otherwise inversion is ambiguous by nature)");
-	ctx.run_sub("reorder_injective", ctx.tier.pick(16000, 600000), || strategy(true), dispatch);
-	ctx.run_sub("reorder_partial", ctx.tier.pick(16000, 600000), || strategy(false), dispatch);
+	ctx.run_sub("reorder_injective", ctx.tier.pick(48000, 600000), || strategy(true), dispatch);
+	ctx.run_sub("reorder_partial", ctx.tier.pick(48000, 600000), || strategy(false), dispatch);
 }
